@@ -358,6 +358,45 @@ class _BlsSpec:
     fields = dict(_op=ObjOf(OPERATOR))
 
 
+def MEMO_CONSISTENT(op):
+    """Native reading of "operands are never changed" for the memo caches: after a query every MemoizationOperator reachable
+    from the receiver still holds only answers of its child's mathematical set (a query that hands out a cached set and lets
+    somebody merge into it corrupts the OPERAND, while its own answer stays right).  The SMT reading of the same fact is
+    the class invariant of MemoizationOperator together with the frame / freshness obligations of every method."""
+    seen, stack = set(), [op]
+    while stack:
+        o = stack.pop()
+        if id(o) in seen:
+            continue
+        seen.add(id(o))
+        name = type(o).__name__
+        if name == "BitLengthSet":
+            stack.append(o._op)
+            continue
+        if name == "MemoizationOperator":
+            d = NSet.of(o._child)
+            if o._min is not None and o._min != d.min():
+                return False
+            if o._max is not None and o._max != d.max():
+                return False
+            for k, v in o._modula.items():
+                if frozenset(v) != frozenset(d.residues(k)):
+                    return False
+            if o._expansion is not None and frozenset(o._expansion) != frozenset(d.elements()):
+                return False
+        if hasattr(o, "_child"):
+            stack.append(o._child)
+        for c in getattr(o, "_children", ()):
+            stack.append(c)
+    return True
+
+
+def _native_only(d, label, fn):
+    if not smt():
+        d[label] = fn()
+    return d
+
+
 # ------------------------------------------------------------------------------------------------ interface contracts
 def _mk_iface(cls_q, verify):
     """The four query contracts, identical for the interface and for every override (behavioural subtyping)."""
@@ -371,7 +410,8 @@ def _mk_iface(cls_q, verify):
             return {"divisor-positive": s.divisor >= 1}
 
         def post(s):
-            return {"residues-exact": SETEQ(s.result, modset(D(s.self), s.divisor))}
+            return _native_only({"residues-exact": SETEQ(s.result, modset(D(s.self), s.divisor))},
+                                "operand-caches-still-consistent", lambda: MEMO_CONSISTENT(s.self))
 
     @contract(cls_q + ".min", props=P + ["C16"])
     class _Min:
@@ -392,7 +432,8 @@ def _mk_iface(cls_q, verify):
         returns = IntSet
 
         def post(s):
-            return {"expansion-exact": SETEQ(s.result, D(s.self))}
+            return _native_only({"expansion-exact": SETEQ(s.result, D(s.self))},
+                                "operand-caches-still-consistent", lambda: MEMO_CONSISTENT(s.self))
 
     from pyvc.spec import REG
 
@@ -732,7 +773,8 @@ allow_big = [False]  # huge counts only for queries that do not expand the set
 
 
 def _gen_tree(rng, depth, root=None):
-    kinds = ["leaf", "pad", "cat", "rep", "rng", "uni"]
+    # memo-wrapped operands as well (BitLengthSet wraps every composition in a MemoizationOperator)
+    kinds = ["leaf", "pad", "cat", "rep", "rng", "uni", "memo", "memo"]
     k = root or (rng.choice(kinds) if depth > 0 else "leaf")
     if k == "leaf" or depth <= 0 and root is None:
         if rng.random() < 0.3:
@@ -863,3 +905,9 @@ for _m in ("__mod__", "is_aligned_at", "is_aligned_at_byte", "min", "max", "fixe
            "repeat_range", "__add__", "__radd__", "__or__", "__ror__", "concatenate", "unite", "__iter__", "__len__"):
     _g, _b = _bls_case(_m)
     NATIVE.add(BLS + "." + _m, _g, _b)
+
+
+# effect obligations (AST, complete for what they state): no memoising decorator, no module-level state - see specs/common.py
+from .common import no_hidden_state_check as _no_hidden_state_check  # noqa: E402
+EXTRA_CHECKS = list(globals().get("EXTRA_CHECKS", [])) + [_no_hidden_state_check(
+    ["pydsdl._bit_length_set._symbolic", "pydsdl._bit_length_set._bit_length_set"], "the bit length set operators and BitLengthSet")]
